@@ -61,6 +61,14 @@ def _pool(seed, n):
     for t in ["monday 3rd", "friday 13th", "the 5th", "tomorrow", "next friday", "8:00", "am 20.", "sunday", "end of month", "mittwoch den 12."]:
         for tsx in ("2020-02-01T09:00:00", "2020-02-10T09:00:00", "2020-02-10T21:30:00", "2020-02-25T00:00:00"):
             entries.append({"t": t, "ts": tsx, "o": {"latent_time": True, "max_stack_depth": 10, "relative_match_len": 1.0, "scorer": "shipped"}})
+    # ... and under reference times that share only the year (other months)
+    for t in ["tomorrow 2025", "5 march 2024", "1730 uhr", "heute 2020", "morgen 0900", "friday 2030"]:
+        for tsx in ("2024-11-10T10:00:00", "2024-03-10T10:00:00", "2019-11-05T08:00:00", "2019-02-05T08:00:00"):
+            entries.append({"t": t, "ts": tsx, "o": {"latent_time": True, "max_stack_depth": 10, "relative_match_len": 1.0, "scorer": "shipped"}})
+    # the same text in another letter case / with other separators (state keyed on a normalised or lower-cased text)
+    for t in ["lunch tomorrow 5pm bob #work", "call anna am freitag um 8 uhr", "report due end of month #q"]:
+        for v in (t, t.title(), t.upper(), t.replace(" ", ", ")):
+            entries.append({"t": v, "ts": "2021-03-10T12:43:30", "o": {"latent_time": True, "max_stack_depth": 10, "relative_match_len": 1.0, "scorer": "shipped"}})
     # the same text under different ts / options
     for i in range(0, min(12, len(texts))):
         entries.append({"t": texts[i], "ts": tss[(i + 1) % len(tss)], "o": {"latent_time": i % 2 == 0, "max_stack_depth": 10, "relative_match_len": 1.0, "scorer": "shipped"}})
